@@ -33,6 +33,10 @@ CLAIMED = {
         text="Lean theorems (every stream): the volume loop equals a flag-free jump process whose stops are grid times and volume ticks (volume_refines_spec, whole runs); its propensities are the svol forms whose closed forms are C01's (k/V, k*V, Hill on s/V); a tick multiplies the volume by exp(g*dt) (positive, non-decreasing for g>=0, V0*exp(g dt)^n after n ticks); rows/trace/index stay aligned; stop is raised only by a dividing tick and equals the divided flag. Tie: rows, volume trace, time axis and flag reproduced bit for bit for Volume, StochasticTimeThresholdVolume (noise 0 and >0) and StateDependentVolume; growth/division oracle on implementation output; G-test vs volume-scaled CME.",
         note=NOTE_COMMON + "law-level statement partial as in C05.",
         technique="Lean 4 proof (refinement + growth algebra) + bit-exact correspondence + growth/division oracle", ref="DESIGN.md §4 C11"),
+    "C09": dict(
+        text="Lean theorems: for rule lists of any length in dependency order (explicit predicate DepOrdered, satisfiable: example) every rule holds after the rule pass (applyAll_holds / rules_hold_after_pass), and 'holds' is the assignment equation for species and parameter targets; rows written by the SSA and volume loops are the post-rule state from which the propensities are computed; fires_iff characterises the three schedules; a rule scheduled for T is silent at every other instant and runs at T; dt rules need a rule step and the SSA loop raises it only on arrival at a grid time; ODE rule = target + rate*dt; additive rule = sum of sources. Tie: Rule.py_execute_rule unit correspondence (all rule types/frequencies, volume and plain), trajectories with rules reproduced bit for bit in SSA/safe/volume/delay; oracle on implementation rows incl. deterministic and lineage single-cell runs (registration count, counter, schedule, ODE step).",
+        note=NOTE_COMMON + "the lineage loop is tied by the row oracle here (and by the loop model of C19 when claimed); deterministic mode claims repeated rules only.",
+        technique="Lean 4 proof (dependency-order induction + schedule lemmas) + bit-exact correspondence + row oracle", ref="DESIGN.md §4 C09"),
 }
 PENDING = {}
 def main():
